@@ -8,7 +8,12 @@ from vcheck import *
 
 P = "Cppcms.C04.Props."
 OBLIGATIONS = [
-    (P + "stub", "placeholder"),
+    (P + "valid_is_fixed_point", "for all rules, methods, x: validate r x = true -> filter r m x = x"),
+    (P + "validateAndFilter_none_iff", "validate_and_filter_if_invalid returns true (output untouched) iff validate does"),
+    (P + "whitelist_only", "for all rules (arbitrary attribute predicates), y: validate r y = true -> every markup candidate the "
+                           "independent lenient tokenizer finds in y is Allowed by r"),
+    (P + "whitelisted_of_filterValidates", "FilterValidates -> FilterOutputWhitelisted (composition of clause 1 with whitelist_only)"),
+    (P + "exRules_ok", "non-vacuity: a concrete rule set satisfying RulesOk (examples in Props.lean evaluate validate/filter on it)"),
 ]
 
 
